@@ -11,10 +11,10 @@ Definition repmin (r : re) (lo : nat) : re := Rep r lo None.
 (* pattern stream: (index, pattern as syntax tree, pattern text given to goa, value,
    ValidatePattern returned nil). 2i+1: the model prints the tree differently from
    the text goa was given; 2i: the verified matcher and goa disagree. *)
-Definition pattern_mismatches (cs : list (nat * top * word * word * bool)) : list nat :=
+Definition pattern_mismatches (cs : list (N * top * word * word * bool)) : list N :=
   flat_map (fun c => match c with (i, t, text, v, obs) =>
-    (if word_eqb (pr_top t) text then [] else [2 * i + 1]) ++
-    (if Bool.eqb (accepts t v) obs then [] else [2 * i]) end) cs.
+    (if word_eqb (pr_top t) text then [] else [2 * i + 1]%N) ++
+    (if Bool.eqb (accepts t v) obs then [] else [2 * i]%N) end) cs.
 
 (* format stream: the answers of the standard-library parsers on the same input
    are data of the case (oracles); (index, format, input, answers, ValidateFormat
@@ -28,7 +28,7 @@ Definition model_format (f : format) (s : word) (a : answers) : bool :=
                   (fun _ => a_mac a) (fun _ => a_cidr a) (fun _ => a_regexp a) (fun _ => a_json a)
                   (fun _ => a_rfc1123 a) f s.
 
-Definition format_mismatches (cs : list (nat * format * word * answers * bool)) : list nat :=
+Definition format_mismatches (cs : list (N * format * word * answers * bool)) : list N :=
   flat_map (fun c => match c with (i, f, s, a, obs) =>
     if Bool.eqb (model_format f s a) obs then [] else [i] end) cs.
 
@@ -45,6 +45,6 @@ Definition verdicts_eq_dec (a b : option (list (list bool))) : {a = b} + {a <> b
 Proof. decide equality. apply list_eq_dec. apply list_eq_dec. apply bool_dec. Defined.
 
 Definition history_mismatches
-  (cs : list (nat * list top * list (list (nat * word)) * list nat * list (list bool))) : list nat :=
+  (cs : list (N * list top * list (list (nat * word)) * list nat * list (list bool))) : list N :=
   flat_map (fun c => match c with (i, pool, calls, sched, obs) =>
     if verdicts_eq_dec (hist_model pool calls sched) (Some obs) then [] else [i] end) cs.
